@@ -123,6 +123,24 @@ def run(tier):
                             tt[8] = common.hexbytes(bytes(rng.choice(b"*0123 ") for _ in range(len(u) + 1)))
                         grp.append(" ".join(tt))
                 ops.append(grp)
+        # across lou_free(): a call with a spacing array (typeform, positions) sizes the library's scratch arrays; after
+        # lou_free() the same call has to behave as before, with and without the array (seeded change C10-H kept the
+        # remembered size of one scratch array over lou_free and so got no memory for it afterwards)
+        for _ in range(2):
+            u, mode = gen_input(t, False)
+            if not u:
+                continue
+            cap = 2 * len(u) + 8
+            def call(am):
+                tt = st.gen_fwd_op(rng, t, inp=u, mode=mode, cap=cap, argmask=am, cursor=0).split(" ")
+                if am & 1:
+                    tt[7] = common.wide([0] * len(u))
+                if am & 2:
+                    tt[8] = common.hexbytes(b"*" * (len(u) + 1))
+                return " ".join(tt)
+            ops.append([call(2 | 1 | 4 | 8)])
+            ops.append(["FREE"])
+            ops.append([call(0), call(2), call(1), call(4), call(8)])
         c = common.Case("c10t-%d" % ti, ["HOOK trace 1"], [o for g in ops for o in g], {"table": t, "groups": [len(g) for g in ops]})
         togg.append(c)
     # typeform NULL versus all-zero where the library's own type buffer matters: a `correct` rule lengthens the text, the
